@@ -360,9 +360,13 @@ type CallLabel func(info *types.Info, call *ast.CallExpr, callee *types.Func) []
 type Events struct {
 	W     *World
 	Label CallLabel
-	Depth int
-	memo  map[evKey]Facts
-	busy  map[evKey]bool
+	// NodeGen adds events that are not calls (assignments, validated loops ...).
+	NodeGen func(pkg *packages.Package, n ast.Node) []string
+	// EdgeGen adds events known on a branch edge (guards).
+	EdgeGen func(pkg *packages.Package, b *cfg.Block, i int, cond ast.Expr) []string
+	Depth   int
+	memo    map[evKey]Facts
+	busy    map[evKey]bool
 }
 
 type evKey struct {
@@ -413,9 +417,12 @@ func (e *Events) OfCall(pkg *packages.Package, binds map[types.Object]*ast.FuncL
 // calls are labelled with the prefix "defer:"; go statements are ignored.
 func (e *Events) OfNode(pkg *packages.Package, binds map[types.Object]*ast.FuncLit, n ast.Node, must bool, depth int) []string {
 	var out []string
+	if e.NodeGen != nil {
+		out = append(out, e.NodeGen(pkg, n)...)
+	}
 	switch s := n.(type) {
 	case *ast.GoStmt:
-		return nil
+		return out
 	case *ast.DeferStmt:
 		for _, c := range callsInEvalOrder(s.Call) {
 			if c == s.Call {
@@ -448,7 +455,7 @@ func (e *Events) ofBody(pkg *packages.Package, body *ast.BlockStmt, must bool, d
 	binds := litBindings(pkg.TypesInfo, body)
 	sol := fl.Solve(Spec{Must: must, Node: func(n ast.Node, in Facts) ([]string, []string) {
 		return e.OfNode(pkg, binds, n, must, depth), nil
-	}})
+	}, Edge: e.edgeFn(pkg)})
 	var res Facts
 	if must {
 		for _, ex := range fl.Exits() {
@@ -498,5 +505,14 @@ func (e *Events) Solve(fl *Flow, must bool) *Sol {
 	binds := litBindings(fl.Info, fl.Body)
 	return fl.Solve(Spec{Must: must, Node: func(n ast.Node, in Facts) ([]string, []string) {
 		return e.OfNode(fl.Pkg, binds, n, must, e.Depth), nil
-	}})
+	}, Edge: e.edgeFn(fl.Pkg)})
+}
+
+func (e *Events) edgeFn(pkg *packages.Package) func(b *cfg.Block, i int, cond ast.Expr, in Facts) ([]string, []string) {
+	if e.EdgeGen == nil {
+		return nil
+	}
+	return func(b *cfg.Block, i int, cond ast.Expr, in Facts) ([]string, []string) {
+		return e.EdgeGen(pkg, b, i, cond), nil
+	}
 }
